@@ -129,6 +129,15 @@ CHECKS["C09"] = dict(
          "96 candidate shapes incl. IPv6; fmtp dictionaries round-trip for None/0/empty/'='-bearing values. Agreement on representatives, not all texts.",
     ref="DESIGN.md section 3 C09")
 
+CHECKS["C03"] = dict(
+    technique="finite-domain evaluation of the direction algebra, role assignments and codec/header-extension intersection (ast evaluated by the checker's interpreter); scope (binding-provenance), mirror (path-count) and guard-latch rules over the negotiation methods",
+    text="Decides: and/or/reverse_direction equal capability intersection/union/swap and their composition gives complementary current directions for all 16 pairs; "
+         "negotiated transceiver state is only read for transceivers selected through the description; createAnswer appends exactly one section per remote section on "
+         "every path, looked up by the remote mid, and BUNDLE lists the mids in order; find_common_codecs/header_extensions select only offered entries with the offerer's "
+         "payload types/ids on boundary scenarios (96, 127, static, RTX/base pairs, H264 profiles); the ICE role is assigned once per transport; DTLS roles are definite and "
+         "complementary. It does not decide that every configuration negotiates and connects.",
+    ref="DESIGN.md section 3 C03")
+
 NOT_APPLICABLE = {
     "C06": "every clause quantifies over loss schedules, timers and the interleaving of several channels' fragments across heap queues; no "
            "clause has a structural necessary condition that is not merely a description of one implementation (DESIGN.md section 5). Its "
